@@ -175,7 +175,13 @@ def check_analysable(rule, fn):
 def split_args(s):
     """Top-level comma split of 'a,f(b,c),d' -> ['a','f(b,c)','d']."""
     out, depth, cur = [], 0, ''
+    quoted = False
     for ch in s:
+        if ch == '"':
+            quoted = not quoted
+        if quoted:
+            cur += ch
+            continue
         if ch in '([{<' and not (ch == '<'):
             depth += 1
         elif ch in ')]}':
